@@ -4,7 +4,7 @@
 //
 //   QMultiHash<QString, QByteArray>                         key owner JID -> key id        (VpMHBlk, MH_CAP slots)
 //   QHash<bool, QMultiHash<QString, QByteArray>>            postponed decisions by trust   (2 fixed slots)
-//   QHash<QXmpp::TrustLevel, QMultiHash<QString,QByteArray>> keys by trust level           (6 fixed slots)
+//   QHash<QXmpp::TrustLevel, QMultiHash<QString,QByteArray>> keys by trust level           (2 fixed slots: ManuallyDistrusted, Authenticated)
 //   QHash<QString, QMultiHash<QString, QByteArray>>         "modified keys" of setTrustLevel (always empty: see Store)
 //
 // Value semantics as implemented by Qt's implicit sharing: an object is a pointer to an IMMUTABLE block; copying copies the
@@ -20,6 +20,12 @@
 #include "QXmppTrustLevel.h"
 extern "C" void vp_c18_limit(bool ok);   // c18_env.c: ASSERT(ok, "..."), ASSUME(ok)
 
+extern "C" unsigned vp_c18_jid_code(const QString *s);      // unit of a 1-unit string, else 0
+extern "C" unsigned vp_c18_key_code(const QByteArray *s);   // byte of a 1-byte array, else 0
+// equality of keys / values: two 1-unit strings are equal iff their units are equal (one comparison instead of the generic
+// string comparison of the QString model); anything else goes through the real operator==
+static inline bool vpEqS(const QString &a, const QString &b) { unsigned x = vp_c18_jid_code(&a), y = vp_c18_jid_code(&b); if (x != 0 && y != 0) return x == y; return a == b; }
+static inline bool vpEqB(const QByteArray &a, const QByteArray &b) { unsigned x = vp_c18_key_code(&a), y = vp_c18_key_code(&b); if (x != 0 && y != 0) return x == y; return a == b; }
 #ifndef MH_CAP
 #define MH_CAP 4
 #endif
@@ -58,31 +64,31 @@ public:
     {
         VpMHBlk *n = new VpMHBlk(*b);
         int r = 0;
-        for (int i = 0; i < MH_CAP; i++) { if (n->used[i] && n->k[i] == key) { n->used[i] = false; r++; } }
+        for (int i = 0; i < MH_CAP; i++) { if (n->used[i] && vpEqS(n->k[i], key)) { n->used[i] = false; r++; } }
         b = n;
         return r;
     }
     bool contains(const QString &key, const QByteArray &value) const
     {
         bool r = false;
-        for (int i = 0; i < MH_CAP; i++) { if (b->used[i] && b->k[i] == key && b->v[i] == value) r = true; }
+        for (int i = 0; i < MH_CAP; i++) { if (b->used[i] && vpEqS(b->k[i], key) && vpEqB(b->v[i], value)) r = true; }
         return r;
     }
     bool contains(const QString &key) const
     {
         bool r = false;
-        for (int i = 0; i < MH_CAP; i++) { if (b->used[i] && b->k[i] == key) r = true; }
+        for (int i = 0; i < MH_CAP; i++) { if (b->used[i] && vpEqS(b->k[i], key)) r = true; }
         return r;
     }
     QList<QByteArray> values() const { QList<QByteArray> r; for (int i = 0; i < MH_CAP; i++) { if (b->used[i]) r.append(b->v[i]); } return r; }
-    QList<QByteArray> values(const QString &key) const { QList<QByteArray> r; for (int i = 0; i < MH_CAP; i++) { if (b->used[i] && b->k[i] == key) r.append(b->v[i]); } return r; }
+    QList<QByteArray> values(const QString &key) const { QList<QByteArray> r; for (int i = 0; i < MH_CAP; i++) { if (b->used[i] && vpEqS(b->k[i], key)) r.append(b->v[i]); } return r; }
     QList<QString> uniqueKeys() const
     {
         QList<QString> r;
         for (int i = 0; i < MH_CAP; i++) {
             if (!b->used[i]) continue;
             bool dup = false;
-            for (int j = 0; j < i; j++) { if (b->used[j] && b->k[j] == b->k[i]) dup = true; }
+            for (int j = 0; j < i; j++) { if (b->used[j] && vpEqS(b->k[j], b->k[i])) dup = true; }
             if (!dup) r.append(b->k[i]);
         }
         return r;
@@ -106,17 +112,19 @@ public:
     bool isEmpty() const { return s[0].isEmpty() && s[1].isEmpty(); }
 };
 
+// only the two levels the manager asks for (Authenticated | ManuallyDistrusted) have a slot; any other level is a model limit
 static inline int vpLevelSlot(QXmpp::TrustLevel l)
 {
     int v = int(l);
-    return v == 1 ? 0 : v == 2 ? 1 : v == 4 ? 2 : v == 8 ? 3 : v == 16 ? 4 : 5;
+    vp_c18_limit(v == 4 || v == 32);
+    return v == 4 ? 0 : 1;
 }
 template<> class QHash<QXmpp::TrustLevel, VpMH>
 {
 public:
-    VpMH s[6];
-    const VpMH value(const QXmpp::TrustLevel &key) const { return s[vpLevelSlot(key)]; }
-    VpMH &operator[](const QXmpp::TrustLevel &key) { return s[vpLevelSlot(key)]; }
+    VpMH s[2];
+    const VpMH value(const QXmpp::TrustLevel &key) const { return vpLevelSlot(key) == 0 ? s[0] : s[1]; }
+    VpMH &operator[](const QXmpp::TrustLevel &key) { return vpLevelSlot(key) == 0 ? s[0] : s[1]; }
 };
 
 template<> class QHash<QString, VpMH>
